@@ -224,7 +224,7 @@ def gen_div(a, b):
     raise Unsupported('div of ' + k)
 
 
-NA = r'(?:OPoint|Matrix|Unit|Isometry|Translation|Rotation|Quaternion|Complex)'
+NA = r'(?:[\w]+::)*(?:OPoint|Matrix|Unit|Isometry|Translation|Rotation|Quaternion|Complex)'
 
 
 @ext(r'^<&?(?:\'\w+ )?' + NA + r'<.*> as (?:std::ops::|core::ops::)?(Add|Sub|Mul|Div|Neg)(?:<.*>)?>::(add|sub|mul|div|neg)$')
@@ -250,13 +250,13 @@ def na_assign_ops(eng, callee, a, m, fc):
     return ()
 
 
-@ext(r'^<OPoint<.*> as Deref(?:Mut)?>::deref(?:_mut)?$')
+@ext(r'^<(?:\w+::)*OPoint<.*> as Deref(?:Mut)?>::deref(?:_mut)?$')
 def point_deref(eng, callee, a, m, fc):
     r = a[0]
     return Ref(lambda: r.get()[0], lambda v: r.get().__setitem__(0, v))
 
 
-@ext(r'^<Matrix<.*> as Deref(?:Mut)?>::deref(?:_mut)?$')
+@ext(r'^<(?:\w+::)*Matrix<.*> as Deref(?:Mut)?>::deref(?:_mut)?$')
 def matrix_deref(eng, callee, a, m, fc):
     v = unref(a[0])
     if isinstance(v, Mat):
@@ -266,7 +266,7 @@ def matrix_deref(eng, callee, a, m, fc):
     return a[0]
 
 
-@ext(r'^<Unit<.*> as (?:Deref|AsRef<.*>)>::(?:deref|as_ref)$|^Unit::<.*>::as_ref$')
+@ext(r'^<(?:\w+::)*Unit<.*> as (?:Deref|AsRef<.*>)>::(?:deref|as_ref)$|^Unit::<.*>::as_ref$')
 def unit_deref(eng, callee, a, m, fc):
     r = a[0]
     return Ref(lambda: r.get()[0])
@@ -611,7 +611,7 @@ def try_inverse(eng, mm):
     return En('Some', [Mat(X)])
 
 
-@ext(r'^<(?:Matrix|OPoint)<.*> as (?:std::ops::|core::ops::)?Index(?:Mut)?<(.*)>>::index(?:_mut)?$')
+@ext(r'^<(?:\w+::)*(?:Matrix|OPoint)<.*> as (?:std::ops::|core::ops::)?Index(?:Mut)?<(.*)>>::index(?:_mut)?$')
 def na_index(eng, callee, a, m, fc):
     r = a[0]
     v = unref(r)
@@ -756,24 +756,24 @@ def rotation_method(eng, callee, a, m, fc):
     return unit_method(eng, syn, a, re.match(r'^Unit::<.*>::(\w+)$|^(x)$|^(y)$', syn), fc)
 
 
-@ext(r'^<Rotation<.*> as (?:std::ops::)?Mul<.*>>::mul$')
+@ext(r'^<(?:\w+::)*Rotation<.*> as (?:std::ops::)?Mul<.*>>::mul$')
 def rotation_mul(eng, callee, a, m, fc):
     r = gen_mul(unref(a[0])[0], unref(a[1])[0] if kind(a[1]) == 'rotmat' else a[1])
     return Struct('Rotation', [r]) if isinstance(r, Mat) and kind(a[1]) == 'rotmat' else r
 
 
-@ext(r'^<Unit<.*> as (?:std::ops::)?Neg>::neg$')
+@ext(r'^<(?:\w+::)*Unit<.*> as (?:std::ops::)?Neg>::neg$')
 def unit_neg(eng, callee, a, m, fc):
     return gen_neg(a[0])
 
 
-@ext(r'^<(?:OPoint|Matrix|Unit|Isometry)<.*> as (?:PartialEq|approx::\w+)(?:<.*>)?>::(eq|ne)$')
+@ext(r'^<(?:\w+::)*(?:OPoint|Matrix|Unit|Isometry)<.*> as (?:PartialEq|approx::\w+)(?:<.*>)?>::(eq|ne)$')
 def na_eq(eng, callee, a, m, fc):
     r = _ext.val_eq(eng, a[0], a[1])
     return r if m.group(1) == 'eq' else not r
 
 
-@ext(r'^<(?:OPoint|Matrix|Unit|Isometry|Translation|Rotation)<.*> as (?:Copy|Clone)>::clone$')
+@ext(r'^<(?:\w+::)*(?:OPoint|Matrix|Unit|Isometry|Translation|Rotation)<.*> as (?:Copy|Clone)>::clone$')
 def na_clone(eng, callee, a, m, fc):
     return clone_val(unref(a[0]))
 
